@@ -228,6 +228,21 @@ CHECKS["C19"] = ("model_checking",
     "distinct mtimes consistent with log order for files of earlier runs (enforced by the harness; the tied case is "
     "documented by MC_LogFiles_ties); graceful restarts only; file age counted from closing time.", "4 C19")
 
+CHECKS["C18"] = ("model_checking",
+    "TLA+ spec Logger.tla (thread-local tag lists, the None/Some/Default logger cell, composition with the fixed tag "
+    "priority, delivery, request/response wrapper) model-checked by TLC as a multi-threaded machine (MC_Logger); real "
+    "multi-threaded runs recorded with start/end stamps and validated by TLC with INFERRED linearisation points "
+    "(trace validation; writers placed by search, reading sends judged against the set of cell values they can have seen)",
+    "MC_Logger explores every interleaving of 2-3 threads x 2-3 operations (two-step logging calls, install, drop guard, "
+    "receiver death, wrapper with inner operations) and checks ExactlyOnce, Routed, StoppedIsError, Isolation, "
+    "FixedOrder (stated without the sort), GuardMatches and WrapperFaithful over what the sinks received. The code is "
+    "bound by logger-threads: 1..8 real threads x 5..60 random operations over the public logging API with harness-held "
+    "loggers and the captured stdout default; TLC accepts a run iff some placement of the unlogged linearisation points "
+    "explains every return value, every delivered event (sink, level, tags in order, values) and leaves no event "
+    "unexplained. One pass reports every unexplained run (GiveUp + TLC registers).",
+    "Trusted: TLC; the lexical projection of log lines; the stamps (one atomic counter). Free: values of duration_ms and "
+    "of the backtrace message. Not observed: the relative order of events inside one sink.", "4 C18")
+
 NOT_APPLICABLE = {}
 
 
